@@ -868,7 +868,9 @@ def check_C20(cx):
         cx.nonconforming = [n for n in cx.nonconforming if (n["case"], n["step"]) not in clock]
         v["rejected"] = [x for x in v["rejected"] if (x[0], x[1]) not in clock]
     cx.edges_total += total
-    cx.edges_walked += sum(len(r["events"]) for r in good) if not v["rejected"] else 0
+    # (edges of the replayed cover whose replay kept the timing assumption; the number of executed steps is kept separately)
+    cx.edges_walked += (planned * len(good) // max(1, len(rs))) if not v["rejected"] else 0
+    cx.extra_cov["idle_steps_executed"] = sum(len(r["events"]) for r in good)
     log("  idle graph: %d edges, %d paths, %d timing-inconclusive, %d rejected, t=%.1fs" % (total, len(paths), len(rs) - len(good), len(v["rejected"]), time.time() - cx.t0))
     # ungated timing scenarios: reads/writes at random offsets, bursts, silence, inactive, real timers
     cases = []
